@@ -188,7 +188,7 @@ func parseTrace(evs []traceEv) (*traceModel, string) {
 // sends in the order of the insertions are possible at all: a result can only be in the channel after its task
 // logged Pushing Result (R) and must be there before the task's first Spawn log (D); sends ordered like the
 // insertions exist iff R of every earlier one is before D of every later one. yield returns false to stop.
-func (m *traceModel) assignments(budget int, yield func(assign []int) bool) (exhausted bool, problem string) {
+func (m *traceModel) assignments(budget int, capacity int, yield func(assign []int) bool) (exhausted bool, problem string) {
 	n := len(m.inserts)
 	assign := make([]int, n)
 	used := make([]bool, len(m.ts))
@@ -226,6 +226,12 @@ func (m *traceModel) assignments(budget int, yield func(assign []int) bool) (exh
 		for _, ti := range cands {
 			t := m.ts[ti]
 			if maxR >= t.spawnFirst {
+				continue
+			}
+			// capacity: when the k-th result goes into the channel (before this task's first Spawn log) at most
+			// `capacity` results are in it, so the (k-capacity)-th has been taken out — which the collector does only
+			// after it has logged the insertion before that one
+			if k > capacity && m.inserts[k-capacity-1] >= t.spawnFirst {
 				continue
 			}
 			nm := maxR
@@ -384,7 +390,7 @@ func TraceCorr(c *Ctx, rec *TraceRec, errCount int) (what string, detail map[str
 	var firstDetail map[string]interface{}
 	accepted := false
 	var callErr error
-	complete, prob := m.assignments(200000, func(assign []int) bool {
+	complete, prob := m.assignments(200000, capacity, func(assign []int) bool {
 		tried++
 		tasks, acts, order, problem := m.actions(assign, capacity)
 		w := ""
@@ -434,11 +440,12 @@ func TraceCorr(c *Ctx, rec *TraceRec, errCount int) (what string, detail map[str
 		detail[k] = v
 	}
 	detail["attributions_tried"] = tried
+	if !complete || tried >= 64 {
+		// not every attribution of the insertions to same-point siblings has been tried (search budget): the
+		// execution is neither explained nor refuted; it is counted, not reported
+		return "", map[string]interface{}{"inconclusive": true}, nil
+	}
 	if tried == 0 {
-		if !complete {
-			// the search for an attribution ran out of budget: nothing can be said about this execution
-			return "", nil, nil
-		}
 		if prob == "" {
 			prob = "no attribution of the insertions to tasks lets the results be sent in the order they were received (a result was received before it can have been sent, or a dependent step was started before its parent's result was in the channel)"
 		}
@@ -457,18 +464,24 @@ func (l TraceLogger) WithFields(fields gateway.LoggerFields) gateway.Logger { re
 func (l TraceLogger) QueryPlanStep(step *gateway.QueryPlanStep)             {}
 
 // TraceFails wraps TraceCorr as the L1.trace channel of a runner
-func TraceFails(c *Ctx, rec *TraceRec, out Outcome, in interface{}) []Failure {
-	if out.Hung || out.PlanHung || out.PlanErr || out.Panicked != nil {
-		return nil
+func TraceFails(c *Ctx, rec *TraceRec, out Outcome, in interface{}) (fails []Failure, status string) {
+	if out.Hung || out.PlanHung || out.PlanErr || out.Panicked != nil || rec == nil {
+		return nil, ""
 	}
 	// errors are accounted for by the L0.errors channels: a response middleware can add errors no task failed with
 	n := -1
 	what, detail, err := TraceCorr(c, rec, n)
 	if err != nil {
-		return []Failure{{Channel: "harness", Classifier: "harness-error", What: err.Error(), Input: in}}
+		return []Failure{{Channel: "harness", Classifier: "harness-error", What: err.Error(), Input: in}}, ""
 	}
 	if what == "" {
-		return nil
+		switch {
+		case detail == nil:
+			return nil, ""
+		case detail["inconclusive"] != nil:
+			return nil, "trace_inconclusive"
+		}
+		return nil, "trace_accepted_by_machine"
 	}
-	return []Failure{{Channel: "L1.trace", Classifier: "unclassified", What: what, Input: in, Observed: detail}}
+	return []Failure{{Channel: "L1.trace", Classifier: "unclassified", What: what, Input: in, Observed: detail}}, ""
 }
